@@ -7,7 +7,9 @@ Coverage map (clause of the property -> stream that reaches it):
   pops, removals, clears .............................. steps "pop", "remove", "clear"
   partial / swapping / cyclic / merging relabels ...... step "relabel" (cycle, reversed, random targets incl. existing labels and absent keys;
                                                         a third of the random targets are drawn from the labels currently held, so
-                                                        integer labels sitting at their own index - stored implicitly - are hit often)
+                                                        integer labels sitting at their own index - stored implicitly - are hit often;
+                                                        15 % are swaps / cycles with extra entries keyed or targeted at the integers
+                                                        2*len(mapping).. that resolve_label_conflict tries as intermediate labels)
   relabel-as-integers ................................. step "relabel_ints" (the returned mapping must restore the labels)
   copies and pickling ................................. step "fork": the history CONTINUES on copy() / copy.copy / deepcopy / pickle round
                                                         trip / Variables(v) (same three fields, Coq OCopy) or on Variables(list(v)) /
@@ -160,6 +162,23 @@ def gen_case0(rng, tier):
                 vals = [{"cur": rng.randint(0, 7)} for _ in range(k)]
                 if rng.random() < 0.5:
                     keys = [{"cur": rng.randint(0, 7)} for _ in range(k)]
+            if rng.random() < 0.15:
+                # two-pass route next to the intermediate labels resolve_label_conflict would pick: a swap / cycle among
+                # labels currently held plus entries whose keys or targets are the integers 2*len(mapping), +1, ...
+                # (absent or present, before or after the overlapping entries)
+                kk = rng.randint(2, 3)
+                base = rng.randint(0, 7)
+                keys = [{"cur": base + i} for i in range(kk)]
+                vals = keys[1:] + keys[:1]
+                extra = rng.randint(1, 2)
+                n = kk + extra
+                pairs = [[a, b] for a, b in zip(keys, vals)]
+                for _e in range(extra):
+                    c = 2 * n + rng.randint(0, 2)
+                    ent = [c, rand_label(rng)] if rng.random() < 0.6 else [rand_label(rng), c]
+                    pairs.insert(rng.randint(0, len(pairs)) if rng.random() < 0.4 else len(pairs), ent)
+                steps.append(["relabel", pairs])
+                continue
             steps.append(["relabel", [[a, b] for a, b in zip(keys, vals)]])
         elif r < 0.76:
             steps.append(["relabel_ints"])
